@@ -94,7 +94,15 @@ func Create(name string) (*File, error) {
 	return OpenFile(name, os.O_RDWR|os.O_CREATE|os.O_TRUNC, 0666)
 }
 
+// Yield, if set, is called at the start of every write and sync: they are
+// system calls, and other goroutines run while one is in progress (two
+// goroutines appending to one file interleave at write granularity).
+var Yield func(site string)
+
 func (f *File) Write(b []byte) (int, error) {
+	if y := Yield; y != nil {
+		y("simos.File.Write")
+	}
 	ev := &Event{Op: "write", Path: f.path, Data: b, Short: -1}
 	if err := before(ev); err != nil {
 		n := 0
@@ -113,6 +121,9 @@ func (f *File) Write(b []byte) (int, error) {
 func (f *File) WriteString(s string) (int, error) { return f.Write([]byte(s)) }
 
 func (f *File) Sync() error {
+	if y := Yield; y != nil {
+		y("simos.File.Sync")
+	}
 	ev := &Event{Op: "sync", Path: f.path}
 	if err := before(ev); err != nil {
 		return &os.PathError{Op: "sync", Path: f.path, Err: err}
